@@ -279,17 +279,27 @@ PROPS = {
     },
     "C13": {
         "module": "ZenonVerif.Props.C13",
-        "streams": [S("codec", 4000, 100000), S("calldata", 6000, 300000, driver=False)],
+        "streams": [S("codec", 4000, 100000), S("calldata", 6000, 300000, driver=False), S("variants", 40, 1500, driver=False)],
         "rule": "codec stream: generated account blocks of all 5 block types (plus out-of-range types), up to 3 levels of "
                 "nested descendants, amounts nil/0/1/2^255-1/2^255/2^256-1/2^256/33+ bytes/negative, uint64 fields on varint "
                 "boundaries, data nil/empty/127/128/16383/16384/20000 bytes, and momentums with 0..101 content entries; "
                 "one evaluation = one value pushed through the real ComputeHash / Serialize / Deserialize / JSON / RLP code "
                 "and the same operation replayed by the Lean model; distinct = distinct (op,result) lines. calldata stream: "
                 "every ValidateSendBlock of the embedded contracts on canonical and re-arranged ABI call data (trailing bytes, "
-                "dirty padding, relocated tails); evaluated on the real code only (no Lean replay)",
-        "partial": "hash function is a parameter (injective on the inputs that arise); the two-node stream `variants` and the "
-                   "acceptance-side theorem uncovered_fields_normalised (T2: stored bytes are a function of covered fields and "
-                   "state) are not built in this round; RLP: generic item round trip is a theorem and the typed encoder is "
+                "dirty padding, relocated tails); evaluated on the real code only (no Lean replay). variants stream (monitors "
+                "only, three real nodes): the fields of AccountBlock / Momentum the hash does not cover are found by experiment "
+                "on ComputeHash (perturb one field of a copy: ChangesHash, BasePlasma, TotalPlasma, PublicKey, Signature; "
+                "PublicKey, Signature for momentums) and every alteration of their type is applied to blocks the producer just "
+                "accepted - byte strings extended by 0x00 / 0xff / 1-80 random bytes, doubled, zero-padded to 33/65/96/128, cut "
+                "by one / to half / to 32 / to nothing / at the front, prefixed, rotated, bit-flipped, zeroed, signed by another "
+                "key; integers +1/+k/0/max; hashes random/zero/bit-flipped - re-encoded through the wire form and delivered to a "
+                "follower BEFORE the honest data: user blocks as gossip (ChainBridge.AddAccountBlocks) and inside a lying peer's "
+                "momentum, momentums and contract receives / descendants through InsertChain; whatever the follower accepts must "
+                "be stored with the bytes of the original (account block and momentum), the follower must then accept the "
+                "producer's momentums and end in the byte-exact state of a reference follower",
+        "partial": "hash function is a parameter (injective on the inputs that arise); the acceptance-side theorem "
+                   "uncovered_fields_normalised (T2: stored bytes are a function of covered fields and state) is not a theorem: "
+                   "it is decided by the variants stream on real nodes (known finding F9 for ChangesHash of user blocks); RLP: generic item round trip is a theorem and the typed encoder is "
                    "byte-equal to go-ethereum on the stream, the typed decoder (reflection over Go structs) is covered by "
                    "Go-side round-trip monitors only; JSON object structure is not modelled (amount / nonce text forms are); "
                    "T4 (call data canonical) has no Lean model of the ABI: it is an AST fact (every ValidateSendBlock "
@@ -305,9 +315,18 @@ PROPS = {
                 "on those with seeds of 0..128 bytes, PubKeyToAddress on 0..64-byte strings, keyStoreFromEntropy on 0..64-byte "
                 "entropies, key files for entropies of 16/20/24/28/32 bytes x 7 passwords (empty, unicode, 4 kB, binary) with "
                 "write -> read -> decrypt, wrong passwords, single-bit flips of ciphertext/nonce/salt (one complete sweep of all "
-                "bits of one file + 6 random bits per further file) and header edits; one evaluation = one call of the real "
-                "wallet code replayed through the Lean model with the primitives supplied as oracle values; distinct = "
-                "distinct (op,result) lines",
+                "bits of one file + 6 random bits per further file) and header edits; password alphabets: key files created with "
+                "passwords that begin / end with white space (blank, tab, CR, LF, CRLF, VT, FF, NEL, NBSP, en/em/thin/hair space, "
+                "line/paragraph separator, ideographic space), consist of white space only, are empty, 4 kB long, raw non-UTF-8 "
+                "bytes, NFC / NFD spellings, upper / lower / title case, with NUL / BOM / zero-width characters - each opened with "
+                "its own password and refused for 4 near misses (the trimmed form, a white-space-extended form, case / "
+                "normalisation / cleaned-up / truncated forms); operation sequences on ONE KeyFile object and on one "
+                "wallet.Manager (Decrypt with right / wrong passwords repeatedly, Unlock-Lock-Unlock, GetKeyFileAndDecrypt, Write "
+                "+ ReadKeyFile, the caller wiping a key store it was handed; three directed sequences + random ones of 4-8 "
+                "operations): after every operation the object's fields and serialised form are unchanged, the file it writes is "
+                "the file first written and holds no plaintext, its password still yields the entropy - replayed through the Lean "
+                "sequence model kfStep; one evaluation = one call of the real wallet code replayed through the Lean model with "
+                "the primitives supplied as oracle values; distinct = distinct (op,result) lines",
         "partial": "'fails with any other password / after any change to ciphertext, nonce or salt' is AES-GCM authenticity "
                    "and Argon2id behaviour: an assumption, exercised by the stream (wrong passwords, bit flips), not a theorem; "
                    "JSON text encoding of the key file (hexutil / bech32) is exercised by the stream only; Timestamp is wall "
@@ -352,7 +371,7 @@ PROPS = {
     },
     "C11": {
         "module": "ZenonVerif.Props.C11",
-        "extra_modules": ["ZenonVerif.Props.C11Node", "ZenonVerif.Props.C11NodeGen"],
+        "extra_modules": ["ZenonVerif.Props.C11Node", "ZenonVerif.Props.C11NodeGen", "ZenonVerif.Props.C11Points"],
         "streams": [S("rewards-pure", 20000, 300000), S("rewards-node", 12, 150, timeout=14400)],
         "rule": "rewards-node stream: one evaluation = one line: an Update call received by the pillar / stake / sentinel / "
                 "liquidity contract of a real node (outcome, new LastEpochUpdate cursor, number of epochs issued), one "
@@ -367,9 +386,17 @@ PROPS = {
                 "arbitrary users, stakes/sentinels/delegations/balances/pillar percentages and reward addresses changing, a "
                 "pillar registering mid-epoch, CollectReward by accounts with and without deposit and twice in a row), "
                 "under the origin, accelerator and bridge&liquidity method tables; one history in four lets nobody call "
-                "Update for 10-14 epochs; afterwards the chain is fed to 2-3 follower nodes (one by one / random batches / big "
-                "batches with a restart after every batch) and cursor, every RewardDeposit and every history entry are "
-                "compared. rewards-pure stream: the vm/constants reward lookups on every epoch 0..400, tick boundaries up to 2^64-1 and "
+                "Update for 10-14 epochs; a late pillar may be revoked again (revoke window shortened to 200 s + 400 s), one "
+                "history in four is directed: the late pillar registers at the start and is revoked in the first election tick of "
+                "an epoch of 3-4 ticks, so it is part of some finished ticks of that epoch and absent from later ones; "
+                "consensus-statistics audit: after one momentum in 3-8 the node's PillarReader is asked 1-3 random questions "
+                "(EpochStats of the epoch in progress / previous / older / future epoch, GetPillarDelegationsByEpoch, "
+                "GetPillarWeights at the frontier and at older momentums), each twice in a row, a quarter of them compared with a "
+                "consensus instance created over an empty consensus database on the same chain; at the end every epoch and one "
+                "momentum per tick are compared that way; the statistics a pillar reward is computed from must count exactly the "
+                "momentums the chain has in that epoch; afterwards the chain is fed to 2-3 follower nodes (one by one / random "
+                "batches, asked for statistics while syncing / big batches with a restart after every batch) and cursor, every "
+                "RewardDeposit and every history entry are compared. rewards-pure stream: the vm/constants reward lookups on every epoch 0..400, tick boundaries up to 2^64-1 and "
                 "random epochs; getWeightedStake / getWeightedLiquidityStake / getWeightedSentinel on entries starting or "
                 "revoked before, at the edges of, inside and after the epoch window (incl. the 90% sentinel threshold); "
                 "computePillarRewardForEpoch on random epoch statistics (1-100 pillars, missed slots, zero expected, zero "
@@ -377,14 +404,20 @@ PROPS = {
                 "functions computeStakeRewardsForEpoch / computeSentinelRewardsForEpoch / computeDetailedPillarReward / "
                 "computeLiquidityStakeRewardsForEpoch (token tuples, additional reward, a fifteenth with percentages above 100%) run on "
                 "an in-memory contract storage with generated entries, pillars, give-percentages and backers, reading back "
-                "the RewardDeposit of every address; distinct = distinct (op,result) lines",
+                "the RewardDeposit of every address; consensus points: 1-6 adjacent period points with pillar sets changing from "
+                "period to period, kept in a real storage.DB (LRU over a key-value store; the newest one sometimes in progress), "
+                "aggregated into the epoch point with the real Point.LeftAppend 2-4 times in a row and once more by a restarted "
+                "DB, every fold recomputed by the Lean function Points.compound, cached period points compared with what was "
+                "stored after the folds; distinct = distinct (op,result) lines",
         "partial": "the amounts credited per epoch enter the cursor/deposit model as observed inputs (their arithmetic is the "
                    "rewards-pure part, re-checked on the real chains' inputs for stake, sentinel and pillar epochs), so 'the "
                    "total credited per epoch is within the emission' is a theorem about the pure functions plus a per-epoch "
                    "comparison on real chains, not one end-to-end theorem; the premises of pillar_epoch_bound are monitored on "
                    "every real epoch's statistics, not proved here; 'identical on all nodes' "
-                   "(EpochStats / PillarDelegationsByEpoch read from each node's own consensus cache) is established by the "
-                   "follower comparison only, not by a theorem; premises produced<=expected, sum of weights <= total weight, sum "
+                   "(EpochStats / PillarDelegationsByEpoch read from each node's own consensus cache) is a theorem only for the "
+                   "aggregation step (Points.compound is a function of the period points; it counts every momentum once); that "
+                   "the node's cached objects behave like those values is established by the consensus-statistics audit "
+                   "(warm/warm, warm/cold, statistics vs chain) and the follower comparison; premises produced<=expected, sum of weights <= total weight, sum "
                    "expected <= MomentumsPerEpoch are consensus facts (C05) taken as hypotheses; exactly-once is false for the "
                    "liquidity contract's origin/accelerator-table Update when it is more than MaxEpochsPerUpdate/2 epochs behind "
                    "(known finding F14: theorem epoch_cursor_liq_origin_partial + negative witness liq_origin_skips_epoch); "
